@@ -44,6 +44,20 @@ streams    NEW | NEWRESOLVE -> [CONTROLLER_WAIT] -> (REMAP 0 .. SOURCE=CACHE)* -
            with NEW / NEWRESOLVE only, SOURCE with REMAP only, REASON / REMOTE_REASON with
            DETACHED / FAILED / CLOSED only.  The Target of every event is the stream's current
            (possibly re-mapped) address.
+pairs      a connect stream that fails before its SOCKS request was answered is reported twice by
+           Tor: ``STREAM n FAILED ..`` (from connection_ap_handshake_socks_reply) and, when the
+           connection is finally closed, ``STREAM n CLOSED ..`` with the same reason
+           (connection_ap_about_to_close).  Model: the ``sfail`` action with ``pair`` moves the stream
+           out of ``streams`` (it is gone for every observer) into ``zombies``; the ``zclose`` action
+           emits the trailing CLOSED (``Ev.ghost``).  The id is not re-used before that.  Resolve
+           streams never get FAILED (Tor sends that event for non-resolve requests only).
+window     streams opened between the answer to ``GETINFO stream-status`` and the SETEVENTS that
+           subscribes STREAM (``gen_window`` / SimSession(window=...)): their NEW is lost, the first
+           line the controller sees for them is whatever comes next - REMAP, SENTCONNECT,
+           SUCCEEDED, DETACHED, FAILED or CLOSED (``Ev.first_sight``).  Such objects exist in
+           ``streams`` but are not ``reported`` until then; ``known_streams()`` is what an observer
+           can possibly list.  Only new streams (and their follow-up steps on circuits the
+           controller knows) are generated inside the window.
 snapshot   ``circuit-status`` lists LAUNCHED / EXTENDED / GUARD_WAIT / BUILT circuits with the
            CIRC keywords; ``stream-status`` lists ``id state circ target`` with state in
            NEW, NEWRESOLVE, SENTCONNECT, SENTRESOLVE, SUCCEEDED and no keywords (what
@@ -66,9 +80,8 @@ API in short
     script(rnd, pre, n) -> (population, history) off-line; selftest(); SimSession(sim, boot=...) = real
     TorControlProtocol + TorState bootstrapped against FakeTor + sim (.state .proto .tor .link .step(a) .pump())
 
-Not modelled (never generated): FAILED immediately followed by CLOSED for one stream,
-direct circuit change of a stream without DETACHED, events in the window between the
-snapshot and SETEVENTS, CIRC_MINOR, SOCKS_USERNAME/PASSWORD keywords.
+Not modelled (never generated): events of snapshot objects or circuit events inside the window,
+direct circuit change of a stream without DETACHED, CIRC_MINOR, SOCKS_USERNAME/PASSWORD keywords.
 """
 import hashlib
 
@@ -217,6 +230,7 @@ class SimStream(object):
         self.reported_source = None    # (addr, port) of SOURCE_ADDR
         self.reported_remap = None     # address of the last REMAP reported
         self.last_keywords = {}
+        self.client_attached = False   # the controller has been told a circuit (and no DETACHED since)
 
     @property
     def target(self):
@@ -239,9 +253,11 @@ class Ev(object):
     unspecified   True where the interfaces say nothing (NEWRESOLVE)
     first_sight   the controller had not heard of this object before
     gone      the object left Tor's tables with this event
+    ghost     the trailing CLOSED of a FAILED/CLOSED pair: the stream was already gone for every
+              observer when this line was sent
     """
     __slots__ = ("kind", "oid", "uid", "status", "text", "keywords", "expect", "unspecified",
-                 "first_sight", "gone", "snapshot")
+                 "first_sight", "gone", "snapshot", "ghost", "attach")
 
     def __init__(self, kind, oid, uid, status, text, keywords):
         self.kind = kind
@@ -255,6 +271,8 @@ class Ev(object):
         self.first_sight = False
         self.gone = False
         self.snapshot = False
+        self.ghost = False
+        self.attach = None          # circuit id if this line is the one that reports the attachment
 
     def __repr__(self):
         return "<Ev %s %s>" % (self.kind, self.text)
@@ -276,6 +294,7 @@ class TorSim(object):
         self.stream_ids = list(stream_ids)
         self.circuits = {}             # id -> SimCircuit  (exactly the circuits Tor still has)
         self.streams = {}              # id -> SimStream
+        self.zombies = {}              # id -> (SimStream, circ, kw): FAILED was sent, CLOSED still to come
         self.freed_circuit_ids = []    # most recently freed last
         self.freed_stream_ids = []
         self._uid = 0
@@ -303,7 +322,16 @@ class TorSim(object):
         return [i for i in self.circuit_ids if i not in self.circuits]
 
     def free_stream_ids(self):
-        return [i for i in self.stream_ids if i not in self.streams]
+        return [i for i in self.stream_ids if i not in self.streams and i not in self.zombies]
+
+    def known_circuits(self):
+        """live circuits Tor has told the controller about (all of them, in this model)"""
+        return {i: c for i, c in self.circuits.items() if c.reported}
+
+    def known_streams(self):
+        """live streams Tor has told the controller about (a stream opened in the subscription
+        window is unknown until its first line after the window)"""
+        return {i: x for i, x in self.streams.items() if x.reported}
 
     def circuit_of(self, sid):
         """ground truth attachment: None | ("live", cid) | ("dead", cid)"""
@@ -312,12 +340,13 @@ class TorSim(object):
             return None
         return ("dead" if s.circ_dead else "live", s.circ)
 
-    def streams_on(self, cid):
+    def streams_on(self, cid, reported_only=False):
         c = self.circuits.get(cid)
         if c is None:
             return []
         return sorted(s.id for s in self.streams.values()
-                      if s.circ == cid and not s.circ_dead and s.circ_uid == c.uid)
+                      if s.circ == cid and not s.circ_dead and s.circ_uid == c.uid
+                      and (s.client_attached or not reported_only))
 
     def invariants(self):
         """self-check of the model (used by selftest)"""
@@ -330,6 +359,7 @@ class TorSim(object):
                 assert s.circ in self.circuits and self.circuits[s.circ].uid == s.circ_uid, (sid, s.circ)
             if s.circ_dead:
                 assert s.circ and (s.circ not in self.circuits or self.circuits[s.circ].uid != s.circ_uid)
+        assert not (set(self.zombies) & set(self.streams))
         assert len({c.uid for c in self.circuits.values()}) == len(self.circuits)
         assert len(self.circuits) <= self.max_circuits + 2 and len(self.streams) <= self.max_streams + 2
 
@@ -387,6 +417,7 @@ class TorSim(object):
         snapshot as [Ev] (circuits first, then streams) with the notifications a listener
         registered *before* the bootstrap is owed."""
         assert not any(s.circ_dead for s in self.streams.values()), "flush dead-circuit streams first"
+        assert not self.zombies, "flush FAILED streams awaiting their CLOSED first"
         evs = []
         self._snap_circ = []
         self._snap_stream = []
@@ -428,6 +459,7 @@ class TorSim(object):
             if s.circ:
                 ev.expect.append(("stream_attach", s.circ))
             s.reported = True
+            s.client_attached = bool(s.circ)
             s.reported_target = (s.cur_host, s.port)
             s.reported_source = None
             s.reported_remap = None
@@ -672,7 +704,11 @@ class TorSim(object):
                 self._need(c.status in ("EXTENDED", "GUARD_WAIT") and len(c.path) >= c.want_len and c.path)
             return
         if a == "snew":
-            self._need(act["id"] not in self.streams and len(self.streams) < self.max_streams + 2)
+            self._need(act["id"] not in self.streams and act["id"] not in self.zombies
+                       and len(self.streams) < self.max_streams + 2)
+            return
+        if a == "zclose":
+            self._need(act["id"] in self.zombies)
             return
         s = self.streams[act["id"]]
         if a in ("sclose",):
@@ -813,7 +849,15 @@ class TorSim(object):
                 s.reported = True
                 s.first_seen = "event-" + status
                 s.reported_target = (s.cur_host, s.port)
+                if status not in ("NEW", "NEWRESOLVE"):
+                    self._count("stream_first_seen_in_mid_life")
             s.last_keywords = kwd
+            if status == "DETACHED":
+                s.client_attached = False
+            elif status not in ("CLOSED", "FAILED") and circ and not s.client_attached:
+                # first line that tells the controller which circuit the stream is on
+                s.client_attached = True
+                ev.attach = circ
         s.status = status
         return ev
 
@@ -856,6 +900,8 @@ class TorSim(object):
         ev = self._stream_event(s, "REMAP", s.circ, [("SOURCE", "EXIT" if s.circ else "CACHE")])
         if self.reporting:
             s.reported_remap = act["addr"]
+        if ev.attach:
+            ev.expect.append(("stream_attach", ev.attach))
         return [ev]
 
     def _do_attach(self, act):
@@ -870,7 +916,8 @@ class TorSim(object):
         s.circ_dead = False
         c.had_streams = True
         ev = self._stream_event(s, "SENTCONNECT" if s.kind == "connect" else "SENTRESOLVE", c.id)
-        ev.expect.append(("stream_attach", c.id))
+        if ev.attach:
+            ev.expect.append(("stream_attach", ev.attach))
         return [ev]
 
     def _do_succeed(self, act):
@@ -878,6 +925,8 @@ class TorSim(object):
         s.succeeded = True
         ev = self._stream_event(s, "SUCCEEDED", s.circ)
         ev.expect.append(("stream_succeeded",))
+        if ev.attach:
+            ev.expect.append(("stream_attach", ev.attach))
         return [ev]
 
     def _reason_kw(self, act):
@@ -908,7 +957,11 @@ class TorSim(object):
         ev.gone = True
         s.final_status = status
         del self.streams[s.id]
-        self.freed_stream_ids.append(s.id)
+        if status == "FAILED" and act.get("pair"):
+            self.zombies[s.id] = (s, s.circ, self._reason_kw(act))
+            self._count("failed_closed_pairs")
+        else:
+            self.freed_stream_ids.append(s.id)
         self.pending = [p for p in self.pending if not (p["a"] in ("sclose", "sfail") and p["id"] == s.id)]
         self.dead_streams = getattr(self, "dead_streams", {})
         self.dead_streams[s.uid] = s
@@ -919,6 +972,21 @@ class TorSim(object):
 
     def _do_sfail(self, act):
         return self._end_stream(self.streams[act["id"]], "FAILED", act)
+
+    def _do_zclose(self, act):
+        """the CLOSED that follows a FAILED (connection_ap_about_to_close)"""
+        s, circ, kw = self.zombies.pop(act["id"])
+        self.freed_stream_ids.append(s.id)
+        text, kwd = self.stream_line(s, "CLOSED", circ, kw)
+        ev = Ev("STREAM", s.id, s.uid, "CLOSED", text, kwd)
+        ev.expect.append(("stream_closed", dict(kwd)))
+        ev.gone = ev.ghost = True
+        if self.reporting and not s.reported:
+            ev.first_sight = True          # its FAILED fell into the subscription window
+            s.reported = True
+            self._count("stream_first_seen_in_mid_life")
+        s.status = "CLOSED"
+        return [ev]
 
     # ---- history generation -----------------------------------------------------
     def _time(self):
@@ -965,8 +1033,12 @@ class TorSim(object):
                 elif r < 0.7 or s.succeeded:
                     act = {"a": "sclose", "id": s.id, "reason": "DESTROY", "remote": None}
                 else:
-                    act = {"a": "sfail", "id": s.id, "reason": "DESTROY", "remote": None}
+                    act = {"a": "sfail", "id": s.id, "reason": "DESTROY", "remote": None, "pair": rnd.random() < 0.6}
+                if act["a"] == "sfail" and s.kind == "resolve":
+                    act = {"a": "sclose", "id": s.id, "reason": "DESTROY", "remote": None}
                 out.append((9.0, act))
+        for zid in self.zombies:
+            out.append((9.0, {"a": "zclose", "id": zid}))
         free_c = self.free_circuit_ids()
         if free_c and len(self.circuits) < self.max_circuits:
             purpose = rnd.choice(CIRC_PURPOSES)
@@ -1039,13 +1111,14 @@ class TorSim(object):
                                       "remote": rnd.choice([None, None] + STREAM_REMOTE)}))
             reason = rnd.choice(STREAM_REASONS)
             remote = rnd.choice(STREAM_REMOTE) if reason == "END" and rnd.random() < 0.7 else None
-            if s.succeeded or rnd.random() < 0.5:
+            if s.succeeded or s.kind == "resolve" or rnd.random() < 0.5:
                 w = 1.5 if s.succeeded else 0.5
                 if s.kind == "resolve" and s.circ:
                     w = 3.0
                 out.append((w, {"a": "sclose", "id": s.id, "reason": reason, "remote": remote}))
             else:
-                out.append((0.6, {"a": "sfail", "id": s.id, "reason": reason, "remote": remote}))
+                out.append((0.6, {"a": "sfail", "id": s.id, "reason": reason, "remote": remote,
+                                  "pair": rnd.random() < 0.6}))
         return out
 
     def propose(self, rnd):
@@ -1065,7 +1138,49 @@ class TorSim(object):
                     act = {"a": "detach", "id": s.id, "reason": "DESTROY", "remote": None}
                 self.apply(act)
                 acts.append(act)
+        for zid in list(self.zombies):
+            act = {"a": "zclose", "id": zid}
+            self.apply(act)
+            acts.append(act)
         return acts
+
+    def gen_window(self, rnd, n=None):
+        """Steps Tor takes between answering GETINFO stream-status and the SETEVENTS that
+        subscribes STREAM: 1-3 new streams and some of their follow-up steps.  Call after
+        take_snapshot(); the steps are applied unobserved (nothing is reported) and returned."""
+        was, self.reporting = self.reporting, False
+        acts, mine = [], set()
+        try:
+            for _ in range(n if n is not None else rnd.choice([1, 2, 3, 5, 7])):
+                cands = []
+                for w, a in self.candidates(rnd):
+                    if a["a"] == "snew" and len(mine) < 3:
+                        cands.append((w, a))
+                    elif a["a"] in ("remap", "attach", "succeed", "detach", "cwait", "sclose", "sfail", "zclose") \
+                            and a["id"] in mine and self.legal(a):
+                        cands.append((w * (0.3 if a["a"] in ("sclose", "sfail") else 1.0), a))
+                if not cands:
+                    break
+                a = rnd.choices([a for _, a in cands], [w for w, _ in cands])[0]
+                if not self.legal(a):
+                    continue
+                if a["a"] == "snew":
+                    mine.add(a["id"])
+                self.apply(a)
+                acts.append(a)
+        finally:
+            self.reporting = was
+        return acts
+
+    def apply_unobserved(self, acts):
+        """re-play steps of the subscription window (see gen_window)"""
+        was, self.reporting = self.reporting, False
+        try:
+            for a in acts:
+                if self.legal(a):
+                    self.apply(a)
+        finally:
+            self.reporting = was
 
     def populate(self, rnd, steps):
         """run `steps` unobserved steps so that the snapshot finds objects in mid-life"""
@@ -1101,6 +1216,16 @@ def script(rnd, pre_steps, steps, **kw):
     return pre, hist
 
 
+def script_w(rnd, pre_steps, steps, window=True, **kw):
+    """like script(), with steps in the subscription window: (population, window, history)"""
+    sim = TorSim(**kw)
+    pre = sim.populate(rnd, pre_steps)
+    sim.take_snapshot()
+    win = sim.gen_window(rnd) if window else []
+    hist = sim.generate(rnd, steps)
+    return pre, win, hist
+
+
 def selftest(n=300, seed=1):
     """model invariants on random histories (attachment symmetric, ids unique, events well-formed)"""
     import random
@@ -1115,6 +1240,8 @@ def selftest(n=300, seed=1):
         sim.invariants()
         for ev in sim.take_snapshot():
             assert (circ_re if ev.kind == "CIRC" else stream_re).match(ev.text), ev.text
+        if k % 3 == 0:
+            sim.gen_window(rnd)
         for _ in range(60):
             a = sim.propose(rnd)
             if a is None:
@@ -1136,13 +1263,16 @@ class SimSession(object):
     boot = "ctor"           ``TorState(proto)`` is created first (``before_bootstrap(state)``
                             may register listeners), then the connection is made and pumped;
     boot = "from_protocol"  ``TorState.from_protocol(proto)``.
+    window                  actions (see TorSim.gen_window) applied when the client asks for
+                            ``address-mappings/all``, i.e. after the snapshot was answered and before
+                            STREAM/CIRC are subscribed: their events are lost.
 
     After construction: ``.state`` (None if the bootstrap did not complete), ``.proto``,
     ``.tor``, ``.link``, ``.boot_outcome`` (audit.Outcome of post_bootstrap), ``.errors``
     (LogCapture).  ``step(action)`` applies one TorSim step and delivers its events;
     ``pump()`` moves bytes until quiescent.  Call ``close()`` when done.
     """
-    def __init__(self, sim, boot="ctor", chunking=(1 << 30,), before_bootstrap=None, tor=None):
+    def __init__(self, sim, boot="ctor", chunking=(1 << 30,), before_bootstrap=None, tor=None, window=()):
         from .. import audit, wire
         from .core import FakeTor, Link
         import txtorcon
@@ -1151,6 +1281,14 @@ class SimSession(object):
         self.sim = sim
         self.tor = tor or FakeTor()
         sim.install(self.tor)
+        if window:
+            # Tor goes on living between the snapshot and the SETEVENTS that subscribes STREAM
+            todo = [list(window)]
+
+            def in_window(line):
+                if todo and line.startswith("GETINFO address-mappings/all"):
+                    sim.apply_unobserved(todo.pop())
+            self.tor.on_line.append(in_window)
         self.errors = audit.LogCapture()
         self.errors.start()
         self.auditor = audit.Auditor(wire.LClock())
